@@ -186,7 +186,8 @@ def stat_fault_task(task):
             shown = (vb + b"/stuff/c08good") in o["stdout"]
             if gone or shown:
                 bad.append({"failing_probe": k, "errno": e, "probe": probe["read_log"][k][0], "removed_or_changed": [repr(p) for p in gone[:6]],
-                            "listed": shown, "stdout": repr(o["stdout"][-400:]), "stderr": repr(o["stderr"][-400:]), "world": jsonable(world)})
+                            "listed": shown, "stdout": repr(o["stdout"][-400:]), "stderr": repr(o["stderr"][-400:]), "world": jsonable(world),
+                            "directed": {"fn": "stat_fault_task", "task": {"seed": task["seed"], "i": task["i"]}}})
                 break
         if bad:
             break
@@ -224,4 +225,9 @@ def run(tier, seed):
 
 
 def replay(path):
+    import sys
+    from ..core import replay_directed
+    rc = replay_directed(sys.modules[__name__], "C08", path)
+    if rc is not None:
+        return rc
     return replay_family("C08", path, READ_CFG)
